@@ -296,3 +296,33 @@ def divisors(n: int) -> list[int]:
 
 def total_time(spec) -> int:
     return 1 + sum(d for _, d, _ in spec)
+
+
+@register_dataclass_as_pytree
+@dataclass
+class ProbeQuantity:
+    error_code: int
+    v: jnp.ndarray
+    t: jnp.ndarray
+
+
+class ProbeQG:
+    """Quantity generator: reports the sum of one tracked key and the epoch time."""
+
+    error_book = {0: "no errors"}
+
+    def __init__(self, key: str, identifier: str = "qg0"):
+        self.key = key
+        self.identifier = identifier
+        self._model = None
+
+    def set_model(self, model):
+        self._model = model
+
+    def has_model(self):
+        return self._model is not None
+
+    def generate(self, prng_key, model_state, epoch):
+        x = self._model.extract_position([self.key], model_state)[self.key]
+        return ProbeQuantity(jnp.asarray(0, jnp.int32), jnp.sum(jnp.asarray(x).astype(jnp.float32)),
+                             _i32(epoch.time))
